@@ -260,7 +260,9 @@ func c17r1(c *Ctx) {
 			ovMiss := overlayMissEdges(f, kv, overlayGets)
 			for i, n := range sites {
 				ob := c.Ob(f, "base-read-after-dels-miss", n.Pos())
-				ob.Check(f.OnlyVia(n, delMiss), nil,
+				// (a hit in the pending puts is as good as a miss in the pending deletes: R2 keeps the two disjoint)
+				putsHit, _ := mapTests(f, kv.puts)
+				ob.Check(f.OnlyVia(n, append(append([]*cfgx.Edge{}, delMiss...), putsHit...)), nil,
 					"%s is read at %s on a path that never tested the pending-deletes map: a key deleted since the last flush is still returned", what[i], c.P.Pos(n.Pos()))
 				ob2 := c.Ob(f, "base-read-after-overlay-miss", n.Pos())
 				ob2.Check(f.OnlyVia(n, ovMiss), nil,
@@ -410,8 +412,11 @@ func c17r2(c *Ctx) {
 				}
 				for _, w := range f.WritesIn(n.AST, false) {
 					if ix, ok := ast.Unparen(w.LHS).(*ast.IndexExpr); ok {
-						if inner, ok := ast.Unparen(ix.X).(*ast.IndexExpr); ok && lhsFieldA(f, inner.X) == pair.store {
-							stores = append(stores, n)
+						// (the per-bucket map may have been fetched into a local first: `puts[k] = v`)
+						if mt, isMap := f.TypeOf(ix.X).Underlying().(*types.Map); isMap {
+							if _, nested := mt.Elem().Underlying().(*types.Map); !nested && lhsFieldA(f, ix.X) == pair.store {
+								stores = append(stores, n)
+							}
 						}
 					}
 				}
